@@ -29,7 +29,8 @@ def norm_value(v: Any) -> Any:
         if isinstance(v, np.generic):
             return v.item()
         if isinstance(v, np.ndarray):
-            return [norm_value(x) for x in v.tolist()]
+            lst = v.tolist()
+            return [norm_value(x) for x in lst] if isinstance(lst, list) else {"__ndarray0d__": norm_value(lst)}
     except ImportError:  # pragma: no cover
         pass
     if isinstance(v, (list, tuple)):
@@ -180,12 +181,14 @@ def _odd_table() -> Dict[str, Any]:
         "long_string": lambda: "x" * 5000,
         "empty_dict": lambda: {},
         "nested_mixed": lambda: {"k": 2.0, "deep": [{"a": 1, 2: (3, 4)}]},
+        "numpy_0d": lambda: np.array(1.5),
+        "class_object": lambda: dict,
     }
 
 
 ODD_NAMES = ["mixed_key_dict", "tuple_key_dict", "none_key_dict", "bool_float_key_dict", "set", "frozenset", "tuple", "bytes", "complex",
              "lone_surrogate", "non_ascii", "big_int", "decimal", "fraction", "nan_in_list", "inf_in_dict", "numpy_array", "numpy_scalar",
-             "numpy_int_key_dict", "range", "deep_list", "long_string", "empty_dict", "nested_mixed"]
+             "numpy_int_key_dict", "range", "deep_list", "long_string", "empty_dict", "nested_mixed", "numpy_0d", "class_object"]
 
 
 def materialise_odd(obj: Any) -> Any:
@@ -208,7 +211,7 @@ def run_real(case: Dict[str, Any], trace: Any = None, pipeline: Any = None) -> D
     rec = make_recorder()
     try:
         if pipeline is None:
-            pipeline = Pipeline(M.to_config(case), transport=rec, trace=trace)
+            pipeline = Pipeline(materialise_odd(M.to_config(case)), transport=rec, trace=trace)
         else:
             pipeline.transport = rec
             pipeline.trace = trace
